@@ -38,7 +38,7 @@ P = {'id': 'C15',
                'for every byte string (< 2^60 bytes) and every argument the run is not a panic and reserves at most 8 bytes per input byte plus one 64 KiB chunk (parser_total), with '
                'per-parser output bounds; refutation theorems with concrete witnesses for the three code shapes that were repaired (sequence decoder without the '
                'count check, LZ without the size limit, Far2Long `as u16 + 34`). The model is tied to the compiled code on every run by evaluating ~1500 generated '
-               'cases in Coq against what the implementation returned. All 112 parser cells - including those without a model - are decided by a direct oracle: '
+               'cases in Coq against what the implementation returned. All 121 parser cells - including those without a model - are decided by a direct oracle: '
                'every short byte string and every valid encoding mutated at every position, in child processes under an address-space and time limit, must yield '
                'Ok or Err.',
  'level_note': 'Trusted: Coq kernel + vm_compute; the hand-written model (agreement with the code is checked on generated cases only); harness generators, the '
@@ -46,4 +46,4 @@ P = {'id': 'C15',
  'technique': 'Coq proof (outcome monad with a compositional `good` rule, induction over fuelled parser loops, lia) + model/implementation differential check '
               'evaluated by vm_compute + crash oracle in resource-limited child processes',
  'explanation': 'Unbounded Coq theorems about a Gallina restatement of 39 parser entry points + differential check of that model against the compiled code + a '
-                'crash/abort/timeout oracle over 112 parser cells in resource-limited child processes.'}
+                'crash/abort/timeout oracle over 121 parser cells in resource-limited child processes.'}
